@@ -1064,6 +1064,12 @@ func handleConfigID(w http.ResponseWriter, r *http.Request) error {
 	parts = append([]string{expanded}, parts[3:]...)
 	r.URL.Path = path.Join(parts...)
 
+	// path.Join drops a trailing slash, but the config as a whole (an
+	// ID on the top-level object) is only served at "/config/"
+	if r.URL.Path == "/"+rawConfigKey {
+		r.URL.Path += "/"
+	}
+
 	return errInternalRedir
 }
 
